@@ -246,7 +246,7 @@ def spec(name: str, opts: dict):
     raise KeyError(f"no kernel spec for {name}")
 
 
-SCALAR_VARIANTS = ["dyadic:float", "generic:float", "generic:float64", "generic:float32", "generic:real_t"]
+SCALAR_VARIANTS = ["dyadic:float", "generic:float", "generic:float64", "generic:float32", "generic:real_t", "large:float"]
 
 
 def positional_order(name: str, opts: dict, sp: dict):
@@ -261,15 +261,17 @@ def positional_order(name: str, opts: dict, sp: dict):
 
 
 def scalar_variant(scalars: dict, variant: str, real_t):
-    """Scalar-argument alphabet: the VALUE (dyadic as listed above, or 'generic' = not representable in
-    single precision) and the TYPE of the object the caller passes (Python float, numpy double, numpy
+    """Scalar-argument alphabet: the VALUE (dyadic as listed above, 'generic' = not representable in
+    single precision, 'large' = generic x 1e6) and the TYPE of the object the caller passes (Python float, numpy double, numpy
     single, the kernel's own precision).  Returns (arguments to pass, their exact float64 meaning)."""
     value, typ = variant.split(":")[:2]
     conv = {"float": float, "float64": np.float64, "float32": np.float32, "real_t": real_t}[typ]
     factors = (1.1, 0.9, 1.3)
 
     def one(v, k=0):
-        v = float(v) * (factors[k] if value == "generic" else 1.0)
+        # 'large': six orders of magnitude up (a stiff penalty factor, a huge step): the documented formula must be
+        # evaluated as documented, not in a rearranged form that cancels
+        v = float(v) * (factors[k] if value in ("generic", "large") else 1.0) * (1e6 if value == "large" else 1.0)
         obj = conv(v)
         return obj, float(obj)
 
